@@ -179,8 +179,8 @@ Fam(k) ==
   CASE Profile = "quick" ->
          (IF "S" \in inv THEN Four ELSE IF "O" \in inv THEN (IF k = "O" THEN Tiny ELSE Five) ELSE All64)
     [] Profile = "thorough" ->
-         (IF "S" \in inv THEN (IF k \in {"C", "S"} THEN Medium ELSE Tiny)
-          ELSE IF k = "C" THEN All64 ELSE IF k = "D" THEN Small ELSE Tiny)
+         (IF "S" \in inv THEN (IF k \in {"C", "S"} THEN Small ELSE Tiny)
+          ELSE IF k = "C" THEN All64 ELSE Tiny)
     [] Profile = "strict" -> {{"lt"}, {"lt", "eq"}}
 FamOf(k) == IF k \in Involved(l, r) THEN Fam(k) ELSE {{}}
 
